@@ -344,10 +344,12 @@ pub(crate) fn rnd_i(n: &'_ Number, arena: &mut Arena) -> Result<Number, EvalErro
         &Number::Float(f) => {
             let f = f.floor();
 
+            // `Fixnum::MAX as f64` rounds up to 2^55, which is not a fixnum:
+            // the upper bound has to be exclusive.
             const FIXNUM_MIN_TO_F: OrderedFloat<f64> = OrderedFloat(Fixnum::MIN as f64);
-            const FIXNUM_MAX_TO_F: OrderedFloat<f64> = OrderedFloat(Fixnum::MAX as f64);
+            const FIXNUM_SUP_TO_F: OrderedFloat<f64> = OrderedFloat(-(Fixnum::MIN as f64));
 
-            if (FIXNUM_MIN_TO_F..=FIXNUM_MAX_TO_F).contains(&f) {
+            if (FIXNUM_MIN_TO_F..FIXNUM_SUP_TO_F).contains(&f) {
                 Ok(Number::Fixnum(
                     // Safety: We checked that the value is in range
                     unsafe { Fixnum::build_with_unchecked(f.into_inner() as i64) },
